@@ -68,6 +68,25 @@ def multi_cfgs(tier):
     return c
 
 
+def multi_sections_tc(n=2, ny=3):
+    """sections that carry a thickness-to-chord distribution (equal spanwise sizes: the unification component sizes every
+    section's t/c input like the last section's)"""
+    import warnings
+
+    from openaerostruct.geometry.geometry_group import build_sections
+
+    surface = {
+        "name": "surface", "is_multi_section": True, "num_sections": n, "sec_name": ["sec%d" % i for i in range(n)],
+        "symmetry": True, "S_ref_type": "wetted", "taper": [1.0, 0.8, 0.7][:n], "span": [2.0, 3.0, 1.5][:n], "sweep": [0.0, 5.0, 10.0][:n],
+        "chord_cp": [np.array([1, 1]), np.array([1.0, 0.8]), np.array([0.8, 0.7])][:n], "twist_cp": [np.zeros(2)] * n, "root_chord": 1.0,
+        "meshes": "gen-meshes", "nx": 2, "ny": [ny] * n, "CL0": 0.0, "CD0": 0.015, "k_lam": 0.05, "c_max_t": 0.303, "with_viscous": False,
+        "with_wave": False, "groundplane": False, "root_section": n - 1, "t_over_c_cp": [np.array([0.1, 0.12]), np.array([0.13, 0.15]), np.array([0.12, 0.1])][:n],
+    }
+    with warnings.catch_warnings():
+        warnings.simplefilter("ignore")
+        return build_sections(surface)
+
+
 def multi_sections(n):
     import warnings
 
@@ -253,6 +272,9 @@ def build_cases(tier):
                                                    surface_name="surface", shift_uni_mesh=True)))
     C.append(Case("GeomMultiUnification", F("geometry.geometry_unification", "GeomMultiUnification", sections=secs4,
                                             surface_name="surface", shift_uni_mesh=False)))
+    # sections with a thickness-to-chord distribution: the unified t/c is the concatenation of the sections' own
+    C.append(Case("GeomMultiUnification(t/c)", F("geometry.geometry_unification", "GeomMultiUnification", sections=multi_sections_tc(2 if tier == "quick" else 3),
+                                                 surface_name="surface", shift_uni_mesh=True)))
     # three sections (two shared edges) and more than one constrained coordinate per edge: the declared rows of the second
     # edge start after *all* constrained coordinates of the first
     secs3 = secs if len(secs) >= 3 else multi_sections(3)
